@@ -50,6 +50,32 @@ pub fn search() -> Option<String> {
             return Some(desc(&format!("s:{}", s), "string result is not the character-wise image"));
         }
     }
+    // ... and on every ordered PAIR of "interesting" characters: every character the table changes, its image, all kana,
+    // the combining / half-width sound marks, joiners and line ends (sequence-level rewriting -- composing a kana with a
+    // following sound mark, collapsing CR LF -- changes the number of characters although every single character is mapped
+    // as before)
+    let mut set: Vec<char> = vec!['\u{3099}', '\u{309a}', '\u{ff9e}', '\u{ff9f}', '\u{301}', '\u{200d}', '\u{fe0f}', '\r', '\n', ' ', '\u{3000}', 'a', '漢'];
+    for u in 0..=0x10FFFFu32 {
+        if let Some(c) = char::from_u32(u) {
+            let t: String = f.filter(c.to_string().as_str());
+            if t != c.to_string() { set.push(c); set.extend(t.chars()); }
+        }
+    }
+    set.extend((0x3041..=0x30ffu32).filter_map(char::from_u32));
+    set.sort(); set.dedup();
+    let image: std::collections::HashMap<char, String> = set.iter().map(|&c| { let t: String = f.filter(c.to_string().as_str()); (c, t) }).collect();
+    for &a in &set {
+        for &b in &set {
+            let s: String = [a, b].iter().collect();
+            let whole: String = match std::panic::catch_unwind(|| { let w: String = KyteaFullwidthFilter.filter(s.as_str()); w }) {
+                Ok(w) => w,
+                Err(_) => return Some(desc(&format!("s:{}", s), "the normaliser panics on this string")),
+            };
+            if whole != format!("{}{}", image[&a], image[&b]) {
+                return Some(desc(&format!("s:{}", s), &format!("the image {:?} of the two-character string {:?} is not the character-wise image", whole, s)));
+            }
+        }
+    }
     None
 }
 
@@ -59,6 +85,10 @@ pub fn replay(arg: &str) -> Option<String> {
         let whole: String = f.filter(s);
         if whole.chars().count() != s.chars().count() {
             return Some(desc(arg, "length not preserved"));
+        }
+        let parts: String = s.chars().map(|c| { let t: String = f.filter(c.to_string().as_str()); t }).collect();
+        if whole != parts {
+            return Some(desc(arg, "string result is not the character-wise image"));
         }
         return None;
     }
